@@ -636,7 +636,15 @@ func baseSuites(r *rand.Rand) []uint16 {
 func customCfg(r *rand.Rand, seed int64) *tls.Config {
 	snis := []string{"example.com", "", "10.0.0.1", "a.b.", "x", longName(253), "fe80::1%eth0"}
 	rd, _ := controlledRand(r)
-	return &tls.Config{ServerName: snis[r.Intn(len(snis))], InsecureSkipVerify: true, OmitEmptyPsk: true, Rand: rd}
+	cfg := &tls.Config{ServerName: snis[r.Intn(len(snis))], InsecureSkipVerify: true, OmitEmptyPsk: true, Rand: rd}
+	if r.Intn(3) == 0 {
+		// the caller's Config already holds values for the fields ApplyConfig copies from the spec's extensions
+		cfg.NextProtos = [][]string{{"h2", "http/1.1"}, {"spdy/3.1"}, {strings.Repeat("n", 255)}}[r.Intn(3)]
+		cfg.CurvePreferences = []tls.CurveID{tls.X25519, tls.CurveP256}
+		cfg.Renegotiation = tls.RenegotiateOnceAsClient
+		cfg.ClientSessionCache = tls.NewLRUClientSessionCache(2)
+	}
+	return cfg
 }
 
 // genWF: a spec inside the precondition: random subset of the extension types, each at most once,
